@@ -55,7 +55,7 @@ def predicate(tr, rep):
 
 
 def run(ctx, rep):
-    _loop.run_all(ctx, rep, "C01", predicate, 6, 60)
+    _loop.run_all(ctx, rep, "C01", predicate, 30, 300)
 
 
 def replay(ctx, rp):
